@@ -238,7 +238,7 @@ class TmpdirGuard:
     def leftovers(self):
         return snapshot(self.dir)
 
-def expected_member_blocks(xroot, members, fake_root, via):
+def expected_member_blocks(xroot, members, fake_root, via, language=None):
     """{member: [lines]} for PO/MO members: the output of checking the extracted file on its own, path rewritten.
     via='inproc': lib.cli.check_regular_file with captured stdout; via=('cli', cwd): the command-line tool"""
     from lib import cli
@@ -248,7 +248,7 @@ def expected_member_blocks(xroot, members, fake_root, via):
             continue
         real = os.path.join(xroot, rel)
         if via == 'inproc':
-            out, exc = inproc(cli.check_regular_file, real, options=options())
+            out, exc = inproc(cli.check_regular_file, real, options=options(language=language))
             if exc:
                 out += f'<<exception {exc}>>\n'
         else:
